@@ -227,13 +227,15 @@ fn history(start: &str, nops: usize, rng: &mut Rng, rep: &mut Report, batch: &mu
         let n = st.tree.size();
         let mut qs: Vec<String> = vec!["ar.q\tn_leaves".into(), "ar.q\tleaves".into(), "ar.q\tis_binary".into(), "ar.q\tis_rooted".into(), "ar.q\troot".into(),
             "sp\tparts".into(), "ar.q\tcherries".into(), "ar.q\tsackin".into(), "ar.q\tcolless".into(), "ar.q\tlength".into(), format!("ar.q\theight\t{UNIT}"), format!("ar.q\tdiameter\t{UNIT}"),
-            "ar.q\tsearch\t-".into(), "sp\tparts".into()];
+            "ar.q\tsearch\t-".into(), "sp\tparts".into(), "ar.q\tleaf_names".into(), "ar.q\tunique_tips".into(), "ar.q\tsize".into(), "ar.q\tsackin_pda_sq".into()];
         for _ in 0..4 {
             let (x, y) = (rng.below(n + 1), rng.below(n + 1));
             qs.push(format!("ar.q\tdist\t{x}\t{y}"));
             qs.push(format!("ar.q\tpreorder\t{x}"));
             qs.push(format!("ar.q\tlevelorder\t{y}"));
             qs.push(format!("ar.q\tsubtree_leaves\t{x}"));
+            qs.push(format!("ar.q\tnode\t{x}"));
+            qs.push(format!("ar.q\tchild_edge\t{x}\t{y}"));
         }
         rng.shuffle(&mut qs);
         for q in qs {
